@@ -290,9 +290,13 @@ namespace Pistache::Http
             if (!match_until(' ', cursor))
                 return State::Again;
 
+            // convert from a bounded, terminated copy of the token: the buffer is not
+            // NUL-terminated and strtol skips leading white space, including the SP
+            // that ends the token
+            const std::string codeText = codeToken.text();
             char* end;
-            auto code = strtol(codeToken.rawText(), &end, 10);
-            if (*end != ' ')
+            auto code = strtol(codeText.c_str(), &end, 10);
+            if (end != codeText.c_str() + codeText.size())
                 raise("Failed to parse return code");
             response->code_ = static_cast<Http::Code>(code);
 
